@@ -35,11 +35,24 @@ def _is_int(x):
     return isinstance(x, int) or (isinstance(x, z3.ExprRef) and z3.is_int(x))
 
 
+def module_helpers(mod):
+    """FunctionDef nodes of the module-level functions of a module (for inlining helper calls)"""
+    out = {}
+    for name, obj in vars(mod).items():
+        if inspect.isfunction(obj) and getattr(obj, '__module__', None) == mod.__name__:
+            try:
+                out[name] = fdef(mod, name)
+            except Exception:
+                pass
+    return out
+
+
 class T:
     """expression translator; env maps names to z3 terms / Python constants / callables"""
 
     def __init__(self, env):
         self.env = dict(env)
+        self.helpers = {}
 
     def ev(self, n):
         if isinstance(n, ast.Constant):
@@ -92,12 +105,12 @@ class T:
                 args = [self.ev(x) for x in n.args]
                 if fn == 'set':
                     return ('set', args[0])
-                if fn == 'min':
-                    a, b = args
-                    return z3.If(a <= b, a, b)
-                if fn == 'max':
-                    a, b = args
-                    return z3.If(a >= b, a, b)
+                if fn in ('min', 'max'):
+                    items = list(args[0]) if len(args) == 1 and isinstance(args[0], (tuple, list)) else list(args)
+                    cur = items[0]
+                    for it in items[1:]:
+                        cur = z3.If(it <= cur, it, cur) if fn == 'min' else z3.If(it >= cur, it, cur)
+                    return cur
                 if fn == 'abs':
                     return z3.If(args[0] >= 0, args[0], -args[0])
                 if fn == 'int':
@@ -182,6 +195,27 @@ def exec_straight(tr, body):
                 elif not cont_f:
                     guard = z3.And(guard, c)
             elif isinstance(st, ast.Expr):
+                # a call of a module-level helper used as a statement (e.g. an argument check): inlined, its raise condition is merged
+                call = st.value
+                if isinstance(call, ast.Call) and isinstance(call.func, ast.Name) and call.func.id in getattr(tr, 'helpers', {}):
+                    callee = tr.helpers[call.func.id]
+                    cargs = []
+                    for a in call.args:
+                        if isinstance(a, ast.Starred):
+                            cargs.extend(list(tr.ev(a.value)))
+                        else:
+                            cargs.append(tr.ev(a))
+                    sub = T({})
+                    sub.helpers = tr.helpers
+                    params = callee.args
+                    names = [p.arg for p in params.args]
+                    for nme, val in zip(names, cargs):
+                        sub.env[nme] = val
+                    if params.vararg is not None:
+                        sub.env[params.vararg.arg] = tuple(cargs[len(names):])
+                    r2, _ = exec_straight(sub, strip_doc(callee.body))
+                    raises = z3.Or(raises, z3.And(guard, r2))
+                    guard = z3.And(guard, z3.Not(r2))
                 continue
             else:
                 raise Unsupported(ast.dump(st)[:200])
